@@ -117,14 +117,14 @@ class Site:
         self.goals = []
 
 
-def searched_byte(I, clos):
-    """the single byte value b for which the search predicate is true (closure evaluated abstractly), else None"""
+def searched_pred(I, clos):
+    """(b, 'eq') if the search predicate is true for the single byte value b only, (b, 'ne') if it is false for b only
+    (closure evaluated abstractly on a set of probe bytes that covers the constants this code base compares with), else None"""
     if clos[0] != 'closure':
         return None
     body = I.by_path.get(F.raw_key(clos[1]))
     if body is None:
         return None
-    hits = []
     from ..absint import Interp as _I
     sub = _I(I.crates, None)
     env = ('ref', ('const', clos)) if body.body['locals'][1]['ty'].get('k') == 'ref' else clos
@@ -142,10 +142,16 @@ def searched_byte(I, clos):
     trues = [c for c, v in outs.items() if v == {1}]
     falses = [c for c, v in outs.items() if v == {0}]
     if len(trues) == 1 and len(falses) == len(outs) - 1:
-        return trues[0]
+        return trues[0], 'eq'
     if len(falses) == 1 and len(trues) == len(outs) - 1:
-        return falses[0]          # first byte that is NOT c: positions skipped over are all the ASCII byte c
+        return falses[0], 'ne'       # first byte that is NOT c: positions skipped over are all the ASCII byte c
     return None
+
+
+def searched_byte(I, clos):
+    """the single byte value the search predicate singles out (see searched_pred), else None"""
+    r = searched_pred(I, clos)
+    return r[0] if r else None
 
 
 def cfg_info(fn):
